@@ -412,22 +412,55 @@ theorem C17_frame_order (f : Frame) (ft : FrameType) (fto : Option FrameType) (w
   · simp only [Spec.frameOctets, List.length_append, hh.2, ht.2, Frame.len, optLen_eq]
     omega
 
-/-- `set_frame_len_in_header()` stores the total length minus one and changes no length -/
-theorem C17_set_frame_len (f : Frame) :
-    (f.setFrameLenInHeader).len = f.len ∧ LenSet f.setFrameLenInHeader ∧
-    (f.setFrameLenInHeader).tfdf = f.tfdf ∧ (f.setFrameLenInHeader).insertZone = f.insertZone ∧
-    (f.setFrameLenInHeader).ocf = f.ocf ∧ (f.setFrameLenInHeader).fecf = f.fecf ∧
-    (∀ h, f.header = .primary h →
-      (f.setFrameLenInHeader).header = .primary { h with frameLen := f.len - 1 }) ∧
-    (∀ h, f.header = .truncated h → f.setFrameLenInHeader = f) := by
+/-- `set_frame_len_in_header()` on a frame whose length minus one fits the 16-bit field (or whose
+    header is truncated: it has no length field and nothing is checked) succeeds, stores the total
+    length minus one and changes no length and no other field -/
+theorem C17_set_frame_len (f : Frame) (hb : f.header.isTruncated = true ∨ f.len - 1 ≤ 65535) :
+    ∃ g, f.setFrameLenInHeader = .ok g ∧ g.len = f.len ∧ LenSet g ∧
+    g.tfdf = f.tfdf ∧ g.insertZone = f.insertZone ∧ g.ocf = f.ocf ∧ g.fecf = f.fecf ∧
+    (∀ h, f.header = .primary h → g.header = .primary { h with frameLen := f.len - 1 }) ∧
+    (∀ h, f.header = .truncated h → g = f) := by
   obtain ⟨hdr, tfdf, iz, ocf, fecf⟩ := f
   cases hdr with
-  | truncated t => simp [Frame.setFrameLenInHeader, LenSet]
+  | truncated t =>
+    exact ⟨_, rfl, rfl, (by simp [LenSet]), rfl, rfl, rfl, rfl, fun h e => (by cases e), fun _ _ => rfl⟩
   | primary t =>
+    have hle : (Frame.mk (.primary t) tfdf iz ocf fecf).len - 1 ≤ 65535 := by
+      rcases hb with hb | hb
+      · cases hb
+      · exact hb
     have h1 : 1 ≤ Tfdf.len tfdf := by unfold Tfdf.len Tfdf.headerLen; split <;> omega
-    simp [Frame.setFrameLenInHeader, LenSet, Frame.len, Header.len, PrimaryHeader.len]
-    omega
+    refine ⟨⟨.primary { t with frameLen := (Frame.mk (.primary t) tfdf iz ocf fecf).len - 1 }, tfdf, iz, ocf, fecf⟩,
+      ?_, ?_⟩
+    · simp only [Frame.setFrameLenInHeader, Frame.setFrameLenWith]
+      rw [if_neg (by omega)]
+    · simp [LenSet, Frame.len, Header.len, PrimaryHeader.len]
+      simp only [Frame.len, Header.len, PrimaryHeader.len] at hle
+      omega
 
+/-- `set_frame_len_in_header()` on a regular frame longer than 65536 octets is refused with
+    `ValueError` (the frame object, in particular its header, is unchanged: no new state is
+    returned); the length field is never silently truncated -/
+theorem C17_set_frame_len_refused (f : Frame) (h : PrimaryHeader) (hh : f.header = .primary h)
+    (hb : 65535 < f.len - 1) : f.setFrameLenInHeader = .error (.py .value) := by
+  simp only [Frame.setFrameLenInHeader, Frame.setFrameLenWith, hh]
+  rw [if_pos hb]
+
+/-- exactly these two outcomes: accepted iff truncated header or `len() - 1 ≤ 0xFFFF` -/
+theorem C17_set_frame_len_ok_iff (f : Frame) :
+    (∃ g, f.setFrameLenInHeader = .ok g) ↔ (f.header.isTruncated = true ∨ f.len - 1 ≤ 65535) := by
+  constructor
+  · rintro ⟨g, hg⟩
+    cases hh : f.header with
+    | truncated t => exact Or.inl rfl
+    | primary p =>
+      refine Or.inr ?_
+      by_cases hb : 65535 < f.len - 1
+      · rw [C17_set_frame_len_refused f p hh hb] at hg; cases hg
+      · omega
+  · intro hb
+    obtain ⟨g, hg, _⟩ := C17_set_frame_len f hb
+    exact ⟨g, hg⟩
 
 private theorem normHdr_vcfLen (h : PrimaryHeader) : (normHdr h).vcfLen = h.vcfLen := by
   unfold normHdr; split <;> rfl
